@@ -1417,7 +1417,9 @@ impl KotoVm {
                             }
                         }
                         Some(KIteratorOutput::Error(error)) => {
-                            return runtime_error!(error.to_string());
+                            // Pass the error on as it is, so that a thrown value reaches its handler
+                            // (rather than a new error with the original error's text as message).
+                            return Err(error);
                         }
                         None => None,
                     }
